@@ -86,6 +86,7 @@ static void out_bytes(const char *key, const unsigned char *p, size_t n) {
     }
     out("}");
 }
+__attribute__((no_sanitize("address"))) static uint64_t fnv_raw(const void *p, size_t n) { const volatile unsigned char *s = p; uint64_t h = 1469598103934665603ULL; for (size_t i = 0; i < n; i++) { h ^= s[i]; h *= 1099511628211ULL; } return h; }
 static int hexv(int c) { return c <= '9' ? c - '0' : (c | 32) - 'a' + 10; }
 
 /* string spec: h<hex> | r<2hex>x<count> | cat of pieces joined by '+' */
@@ -235,7 +236,7 @@ static void digest_body(const char *tag) {
 #ifdef VERIF_HEAPTRACK
     out(",\"heap_live\":%ld,\"heap_bytes\":%ld", ht_live, ht_bytes);
 #endif
-    out(",\"syms\":{"); for (int i = 0; i < nsyms; i++) out("%s\"%s\":\"%016llx\"", i ? "," : "", syms[i].name, (unsigned long long)fnv((void *)syms[i].addr, syms[i].size)); out("}");
+    out(",\"syms\":{"); for (int i = 0; i < nsyms; i++) out("%s\"%s\":\"%016llx\"", i ? "," : "", syms[i].name, (unsigned long long)fnv_raw((void *)syms[i].addr, syms[i].size)); out("}");
     out("}");
 }
 static void digest(const char *tag) { digest_body(tag); out("\n"); }
